@@ -167,6 +167,9 @@ def check(tree, rep, tier='quick', seed=0):
                     status_enum[y] = fs.attrs['enum']
                     rep.ob('R17.6', f'{y}/filing-status-has-five', len(status_enum[y].members) == 5,
                            f'filing status enum of {y} has members {status_enum[y].members}', fs.where)
+    from ..core import get_core
+    from .. import corerules as R
+    R.k25_list_form_inputs(get_core(tree), rep)
     # ---- R17.7 every input / line / mapping object belongs to exactly one form instance
     shared_rule(cat, rep)
     # ---- R17.5 threshold tables
